@@ -328,9 +328,12 @@ def execute(case):
                 f = inputs[k]["files"][0]
                 sc.fresh_world(world)
                 r = core.run_inv(sc, {"argv": ["--color", "never"] + list(case["cli"]), "cwd": os.path.dirname(f),
-                                      "stdin": {"b64": _b64(core.file_bytes(world["files"][f]))}, "hashseed": case["hashseed"]})
+                                      "stdin": {"b64": _b64(core.file_bytes(world["files"][f]))}, "hashseed": case["hashseed"],
+                                      "plan": [None, ["* read 0 @0 short 5,1,2,64"], ["* read 0 @0 short 3"]][case["hashseed"] % 3]})
                 v.account(r, nontrivial=False)
                 want = single[k][1].get(f)
+                if want is not None and single[k][0].exit == 0 and r.exit != 0:
+                    v.add("C15:stdin-rejected-but-path-accepted", "%s: exit 0 as a path, %s on stdin (stderr %r)" % (f, r.status(), core.text_of(r.stderr)[:160]), file=f)
                 if want is not None and r.exit == 0 and r.stdout != want:
                     v.add("C15:stdin-vs-path", "%s: bytes for the source on stdin differ from its path run" % f, file=f)
                 v.probe("stdin-delivery")
